@@ -139,6 +139,11 @@ impl PacketSender {
         self.alloc
     }
 
+    #[cfg(feature = "verif")]
+    pub fn verif_max_alloc(&self) -> usize {
+        self.max_alloc
+    }
+
     // Accounts for a packet in the transfer window whose payload has been discarded unsent.
     pub fn forget_bytes(&mut self, size: usize) {
         debug_assert!(size <= self.total_size);
